@@ -25,4 +25,8 @@ ACall == {102, 103, 42, 117, 45, 49, 120, 40, 41, 44, 32}         \* f g * u - 1
 \* braces and literals
 TBrace == << D(<<45>>, 50, FALSE), D(<<43>>, 0, TRUE), U(<<115>>) >>
 ABrace == {123, 125, 97, 32, 43, 45, 49, 46, 115, 40, 41, 945}     \* { } a ' ' + - 1 . s ( ) alpha
+
+\* totality material (C06): operators of the default tables, every character class incl. 2- and 4-byte code points
+TStr == << D(<<43>>, 0, TRUE), D(<<45>>, 1, FALSE), B(<<42>>, 2, TRUE), B(<<94>>, 4, FALSE), K(<<960>>) >>
+AStr == {120, 49, 46, 32, 40, 41, 44, 123, 125, 43, 42, 35, 960, 128512}      \* x 1 . ' ' ( ) , { } + * # pi emoji
 =============================================================================
